@@ -4,7 +4,7 @@ import Lattigo.Model.BGV
 /-
   C05 line protocol (harness/c05.go):
 
-    step t=<t> qs=<q0,..> n=<slots> si=<0|1> rlk=<0|1> op=<name> out=<new|inp|into:REG> a=REG b=ARG
+    step t=<t> qs=<q0,..> n=<slots> si=<0|1> rlk=<0|1> op=<name> out=<new|inp|inp1|into:REG> a=REG b=ARG
         ⇒ REG | REG REG | err | outside
     match t=<t> s0=<s0> s1=<s1>  ⇒  r0 r1
 
@@ -68,9 +68,14 @@ def handleStep (toks : List String) : Option String := do
   let si ← (kv? toks "si").bind parseNat?
   let rlk ← (kv? toks "rlk").bind parseNat?
   let op ← (kv? toks "op").bind parseOp?
-  let o ← (kv? toks "out").bind (parseOut? t)
   let a ← (kv? toks "a").bind (parseReg? t)
   let b ← (kv? toks "b").bind (parseArg? t)
+  -- `inp1`: the receiver is the second operand (a register)
+  let o ← match kv? toks "out", b with
+    | some "inp1", .reg rb => some (Out.into rb)
+    | some "inp1", _ => none
+    | some s, _ => parseOut? t s
+    | none, _ => none
   let c : Cfg := { t := t, qs := qs, n := n, si := si == 1, rlk := rlk == 1 }
   match step c op o a b with
   | .ok rs => pure (" ".intercalate (rs.map (showReg t)))
